@@ -85,7 +85,7 @@ TRAIT_SOURCES = [
 MAPM = dict(BSM); MAPM.update({'buckets': 'BLK_buckets', 'acquire': 'GB_acquire', 'get': 'GB_get', 'unlock': 'UNL_unlock', 'disable': 'UNL_disable',
                                'acquire_lock': 'EB_acquire_lock', 'release_lock': 'EB_release_lock', 'reclaim': 'GB_reclaim'})
 SUB_MAP = SUB_COMMON + [
-  (r'\bhash\{\}\((\w+)\)', r'XV_HASH(\1)', 'hash_call'),
+  (r'\bhash\{\}\(', 'XV_HASH(', 'hash_call'),
   (r'\bunlocker unlocker\((\w+), (\w+)\);', r'struct unlocker unlocker; unl_ctor(&unlocker, &(\1), \2);', 'unlocker_decl'),
   (r'traits::template (\w+)<(\w+)>\(', r'TR_\1(\2, ', 'traits_tcall'), (r'traits::(\w+)\(', r'TR_\1(', 'traits_call'),
   (r'\bguarded_block (\w+);', r'guarded_block \1 = 0;', 'guard_decl'),
@@ -155,7 +155,7 @@ MAP_SOURCES = [
        self_calls={'do_grow': 'vhm_do_grow'}, post_subst=ref_params('bucket'), cut_loops={0: 'WAIT'},
        must_fire={'A_XCHG': 1, 'A_STORE': 1, 'A_LOAD': 1, 'cut_loop': 1}),
   mapf('do_grow', r'void vyukov_hash_map<Key, Value, Policies...>::do_grow\(\)', 'static void vhm_do_grow_real(struct vhm* self)',
-       subst=[(r'\bblock\* new_block', 'block_t* new_block', 'block_type'), (r'\bguarded_block g\(old_block\);', 'guarded_block g = old_block;', 'guard_ctor')],
+       subst=[(r'\bblock\s*\*', 'block_t*', 'block_type'), (r'\bguarded_block (\w+)\(([^;()]*)\);', r'guarded_block \1 = \2;', 'guard_ctor')],
        self_calls={'allocate_block': 'vhm_allocate_block'},
        must_fire={'throw': 1, 'subst:traits_tcall': 2, 'call:allocate_extension_item': 1, 'A_CAS': 1, 'method:reclaim': 1, 'reference': 4}),
   mapf('do_extract', r'bool vyukov_hash_map<Key, Value, Policies...>::do_extract\(const key_type& key, accessor& result\)',
@@ -165,7 +165,7 @@ MAP_SOURCES = [
                   'method:new_version': 5, 'method:set_delete_marker': 2, 'call:free_extension_item': 2, 'A_STORE': 10, 'ref:result': 2}),
   mapf('erase', r'bool vyukov_hash_map<Key, Value, Policies...>::erase\(const key_type& key\)',
        'static _Bool vhm_erase(struct vhm* self, kkey_t key)',
-       subst=[(r'\baccessor acc;', 'accessor acc = XV_ACC_EMPTY;', 'acc_decl')], self_calls={'do_extract': 'vhm_do_extract'}, may_throw=['vhm_do_extract'],
+       subst=[(r'\baccessor (\w+);', r'accessor \1 = XV_ACC_EMPTY;', 'acc_decl')], self_calls={'do_extract': 'vhm_do_extract'}, may_throw=['vhm_do_extract'],
        must_fire={'subst:acc_decl': 1, 'self_call:do_extract': 1, 'subst:traits_call': 1, 'may_throw:vhm_do_extract': 1}),
   mapf('extract', r'bool vyukov_hash_map<Key, Value, Policies...>::extract\(const key_type& key, accessor& acc\)',
        'static _Bool vhm_extract(struct vhm* self, kkey_t key, accessor* acc_p)',
@@ -173,7 +173,7 @@ MAP_SOURCES = [
        must_fire={'self_call:do_extract': 1, 'may_throw:vhm_do_extract': 1}),
   mapf('do_get_or_emplace', r'bool vyukov_hash_map<Key, Value, Policies...>::do_get_or_emplace\(Key&& key, Factory&& factory, Callback&& callback\)',
        'static _Bool vhm_do_get_or_emplace(struct vhm* self, _Bool AcquireAccessor, kkey_t key)',
-       subst=[(r'\baccessor acc;', 'accessor acc = XV_ACC_ANY;', 'acc_decl'), (r'\bretry:', 'retry: ;', 'label'), (r'\bgoto retry;', 'XV_GOTO_RETRY;', 'goto_retry')],
+       subst=[(r'\baccessor (\w+);', r'accessor \1 = XV_ACC_ANY;', 'acc_decl'), (r'\bretry:', 'retry: ;', 'label'), (r'\bgoto retry;', 'XV_GOTO_RETRY;', 'goto_retry')],
        self_calls={'lock_bucket': '*vhm_lock_bucket', 'grow': 'vhm_grow'}, calls={'callback': 'XV_CALLBACK', 'factory': 'XV_FACTORY'},
        py_post=do_goe_post,
        must_fire={'subst:unlocker_decl': 1, 'subst:goto_retry': 1, 'try_catch': 1, 'rethrow': 1, 'hoist_arg:XV_FACTORY': 2, 'throw_check:TR_store_item': 2,
@@ -218,7 +218,7 @@ for nt in (0, 1):
                      note='retry loop and extension-chain loop cut by invariants RETRY / CHAIN; environment = any writers (rely: type invariant only); %s storage' % ('NONTRIVIAL' if nt else 'TRIVIAL')))
     for L, tiers in ((2, QT), (3, T)):
         RUNS.append(dict(w_run('get_solo_%s%d' % (sfx, L), 'h_get_seq', L, nt, tiers, {'vhm_try_get_value__0': 1, 'vhm_try_get_value__2': 1, 'vhm_try_get_value__3': 1, 'vhm_try_get_value__5': 1, 'vhm_try_get_value__1': 4, 'vhm_try_get_value__4': L + 1}),
-                         mode='SOLO', unwind_obligation='vhm.get.terminates'))
+                         mode='SOLO', unwind_obligation='vhm.get.terminates', flags=['--object-bits', '10']))    # (a reader that does loop needs > 2^8 objects before the unwinding assertion is reached)
 RUNS.append(dict(w_run('lock_int', 'h_lock_int', 1, 0, QT, {}), mode='INT', cls='unbounded', note='spin loop cut by invariant LOCK; environment: other threads lock/unlock/modify the bucket at will'))
 for L, nt, tiers in ((1, 0, QT), (1, 1, QT), (2, 0, T), (2, 1, T)):
     RUNS.append(dict(w_run('do_grow_%s%d' % ('n' if nt else 't', L), 'h_do_grow', L, nt, tiers, {}), note='one old bucket (3 slots + chain <= %d) rehashed into two new buckets; allocate_block is a stub' % L))
@@ -228,6 +228,10 @@ RUNS.append(w_run('grow_t', 'h_grow', 1, 0, ['quick', 'thorough'], {'vhm_grow_re
 UNIT = dict(
   title='vyukov_hash_map: per-bucket map refinement of emplace/extract/erase, extension items, grow, lock-free reader (C10)',
   properties=['C10'],
+  # C++ type names in the signatures of helpers a maintainer may extract (followed automatically) -> the C types of model.h
+  ctypes={'bucket': 'bucket_t', 'bucket_state': 'bstate_t', 'block': 'block_t', 'extension_item': 'extension_item', 'extension_bucket': 'extension_bucket',
+          'guarded_block': 'guarded_block', 'hash_t': 'hash_t', 'accessor': 'accessor', 'key_type': 'kkey_t', 'Key': 'kkey_t', 'value_type': 'vval_t', 'Value': 'vval_t',
+          'unlocker': 'struct unlocker'},
   drops='templates; Key/Value are opaque 64-bit words compared only by ==; two storage modes compiled from the real traits text: TRIVIAL (traits<.., true, true>) and '
         'NONTRIVIAL (-DXV_NT, traits<.., false, *>, key cell = hash, node on the heap); hash{}(key) is an uninterpreted symbolic function; guarded_block/guard_ptr are raw pointers '
         '(the reclaimer contracts are other units); backoff dropped; Factory/Callback template arguments are harness hooks (the emplace/get_or_emplace(_lazy) wrappers only build lambdas); '
